@@ -467,7 +467,67 @@ func (e *Eng) loopEnv(fr *Frame, h *ssa.BasicBlock, phis []*ssa.Phi, override ma
 		env.vars[p.Comment] = fr.vals[p]
 		env.vars[name] = fr.vals[p]
 	}
+	// `rangeindex` in an invariant written for `for .. range xs` keeps its meaning (index of the last completed
+	// iteration) when the loop is rewritten as `for i := 0; i < len(xs); i++`: it is i-1 for the loop's only counter
+	// that starts at 0 and is advanced by exactly 1 per iteration.
+	own := false
+	for _, p := range phis {
+		if p.Comment == "rangeindex" {
+			own = true
+		}
+	}
+	if !own {
+		var cnt *ssa.Phi
+		n := 0
+		for _, p := range phis {
+			if isUnitCounterFromZero(h, p) {
+				cnt = p
+				n++
+			}
+		}
+		if n == 1 {
+			v := fr.vals[cnt]
+			if override != nil {
+				if ov, ok := override[cnt]; ok {
+					v = ov
+				}
+			}
+			if v != nil {
+				env.vars["rangeindex"] = &Val{T: sx("-", v.T, "1"), Typ: types.Typ[types.Int], KnownLen: -1}
+			}
+		}
+	}
 	return env
+}
+
+// isUnitCounterFromZero: an integer phi of header h that is 0 on every entry edge and phi+1 on every other edge.
+func isUnitCounterFromZero(h *ssa.BasicBlock, p *ssa.Phi) bool {
+	if !isInteger(p.Type()) || len(p.Edges) != len(h.Preds) {
+		return false
+	}
+	entries, backs := 0, 0
+	for _, edge := range p.Edges {
+		if c, ok := edge.(*ssa.Const); ok {
+			if c.Value == nil || constant.Sign(c.Value) != 0 {
+				return false
+			}
+			entries++
+			continue
+		}
+		b, ok := edge.(*ssa.BinOp)
+		if !ok || b.Op != token.ADD || b.X != ssa.Value(p) {
+			return false
+		}
+		c, ok := b.Y.(*ssa.Const)
+		if !ok || c.Value == nil {
+			return false
+		}
+		if c.Value.ExactString() != "1" {
+			return false
+		}
+		backs++
+	}
+	return entries >= 1 && backs >= 1
 }
 
 func (e *Eng) backEdge(fr *Frame, from *ssa.BasicBlock, h *ssa.BasicBlock, st *State, guard string) {
